@@ -210,3 +210,58 @@ Section WithScope.
         ns_transform (mkNs ns fss false RBDefault) all
     end.
 End WithScope.
+
+(* one resource through the namespace directives of its layer chain, innermost first ("" = no directive) *)
+Fixpoint ns_chain (t : scope_table) (fss : list fieldspec) (ds : list string) (obj : node) : res node :=
+  match ds with
+  | [] => Ok obj
+  | d :: rest =>
+      if String.eqb d "" then ns_chain t fss rest obj
+      else do o <- ns_filter t (mkNs d fss false RBDefault) obj; ns_chain t fss rest o
+  end.
+
+(* the last (outermost) non-empty directive of a chain *)
+Fixpoint outermost (ds : list string) : string :=
+  match ds with
+  | [] => ""
+  | d :: rest => let o := outermost rest in if String.eqb o "" then d else o
+  end.
+
+(* ---------- Kubernetes facts the scope table is judged against (apiVersion, kind) ---------- *)
+Definition k8s_cluster_types : list (string * string) := [
+  ("v1", "Namespace"); ("v1", "Node"); ("v1", "PersistentVolume");
+  ("rbac.authorization.k8s.io/v1", "ClusterRole"); ("rbac.authorization.k8s.io/v1", "ClusterRoleBinding");
+  ("apiextensions.k8s.io/v1", "CustomResourceDefinition"); ("apiregistration.k8s.io/v1", "APIService");
+  ("storage.k8s.io/v1", "StorageClass"); ("storage.k8s.io/v1", "CSIDriver"); ("storage.k8s.io/v1", "CSINode");
+  ("storage.k8s.io/v1", "VolumeAttachment"); ("scheduling.k8s.io/v1", "PriorityClass");
+  ("node.k8s.io/v1", "RuntimeClass"); ("networking.k8s.io/v1", "IngressClass");
+  ("admissionregistration.k8s.io/v1", "MutatingWebhookConfiguration");
+  ("admissionregistration.k8s.io/v1", "ValidatingWebhookConfiguration");
+  ("certificates.k8s.io/v1", "CertificateSigningRequest")
+].
+Definition k8s_namespaced_types : list (string * string) := [
+  ("v1", "Pod"); ("v1", "ConfigMap"); ("v1", "Secret"); ("v1", "Service"); ("v1", "ServiceAccount");
+  ("v1", "PersistentVolumeClaim"); ("v1", "Endpoints"); ("v1", "ReplicationController");
+  ("v1", "ResourceQuota"); ("v1", "LimitRange"); ("v1", "PodTemplate"); ("v1", "Event");
+  ("apps/v1", "Deployment"); ("apps/v1", "StatefulSet"); ("apps/v1", "DaemonSet"); ("apps/v1", "ReplicaSet");
+  ("apps/v1", "ControllerRevision"); ("batch/v1", "Job"); ("batch/v1", "CronJob");
+  ("rbac.authorization.k8s.io/v1", "Role"); ("rbac.authorization.k8s.io/v1", "RoleBinding");
+  ("networking.k8s.io/v1", "Ingress"); ("networking.k8s.io/v1", "NetworkPolicy");
+  ("policy/v1", "PodDisruptionBudget"); ("autoscaling/v1", "HorizontalPodAutoscaler");
+  ("coordination.k8s.io/v1", "Lease"); ("discovery.k8s.io/v1", "EndpointSlice")
+].
+
+(* the table answers every listed type the way Kubernetes does, and is a function *)
+Fixpoint scope_keys_nodup (t : scope_table) : bool :=
+  match t with
+  | [] => true
+  | (a, k, _) :: rest =>
+      match scope_lookup rest a k with None => scope_keys_nodup rest | Some _ => false end
+  end.
+
+Definition scope_table_total (t : scope_table) : bool :=
+  forallb (fun e : string * string =>
+             match scope_lookup t (fst e) (snd e) with Some false => true | _ => false end) k8s_cluster_types &&
+  forallb (fun e : string * string =>
+             match scope_lookup t (fst e) (snd e) with Some true => true | _ => false end) k8s_namespaced_types &&
+  scope_keys_nodup t.
